@@ -70,6 +70,18 @@ claim('C04', _INJ +
       'TLA+ spec (Inject.tla, defect-enabled instance) + TLC exhaustive + replay of TLC-generated configurations',
       'DESIGN.md 3/C04')
 
+claim('C05',
+      'Pattern.tla specifies the mini-language on characters: three-valued lexical classes (valid/gray/invalid literals of '
+      'str/int/float), segment assignment (Can / Assign), slash discipline per mode, conversion via the recorded Python '
+      'int()/float() table, textual validity. TLC checks the stepwise matcher against Can/Assign and the mode algebra '
+      '(Pattern_MC), enumerates textual patterns with ValidPattern for the InvalidPattern leg, and - the main leg - judges with '
+      'ObsOK() every observation of the real BoundRoute.match_path on EVERY string over a 9-character alphabet up to length 5 '
+      '(quick) / 6-7 (thorough) against ~100 catalogue patterns in the 3 slash modes (millions of observations, 16 TLC shards).',
+      'Trusted: TLC; Python int()/float() as conversion table; segments with spaces that are numeric without them are gray; regex '
+      'metacharacters in literals, trailing newline, non-ASCII digits outside the alphabet. Known finding F5 (multi binding + repeated slash) is listed in known_findings.json.',
+      'TLA+ spec (Pattern.tla) + TLC + exhaustive-strings record validation (Pattern_Trace.tla) + replay of TLC-enumerated textual patterns',
+      'DESIGN.md 3/C05')
+
 claim('C06',
       'TLC model-checks Dispatch.tla: the dispatch loop (one action per branch of Application.dispatch, DispatchState as '
       'variables) is proved equal to the declarative Answer() - first match in add() order, method admission incl. HEAD-via-GET '
